@@ -28,11 +28,24 @@
 (*   perr[e]    e's reader returned a protocol-violation error (which makes *)
 (*              run() call closeWithError)                                  *)
 (*   written/readOut/eof  observation history used by the properties        *)
+(*                                                                         *)
+(* Deadline and readiness signalling of Stream (per endpoint and stream):   *)
+(*   swr / rbr  a token is in sendWindowReady / receiveBufferReady          *)
+(*   wx / rx    writeDeadlineExpired / readDeadlineExpired                  *)
+(*   wt / rt    the deadline timer: "off", "armed", "fired" (value in C)    *)
+(*   wb / rb    a Write / Read call in progress: on = inside its wait loop, *)
+(*              fin = returned in its goroutine with result (cnt/n, res),   *)
+(*              have = haveNonZeroSendWindow (token taken, no buffer yet)   *)
+(*   stuck[e]   e's reader goroutine blocked forever sending a readiness    *)
+(*              token into a channel that already holds one                 *)
+(*   cap        messages in flight per direction before a sender finds no   *)
+(*              write buffer (0: never)                                     *)
 (***************************************************************************)
 EXTENDS Integers, Sequences, FiniteSets, TLC
 
 CONSTANTS MaxId,       \* stream identifiers range over 1..MaxId
-          ZeroIncBug   \* TRUE: Stream.Read as it was before the repair (enqueues an increment of 0)
+          ZeroIncBug,  \* TRUE: Stream.Read as it was before the repair (enqueues an increment of 0)
+          DeadlineBug  \* "none" | "wresignal" | "rresignal" | "wlose": slips in the deadline branches (design errors the properties exclude)
 
 E == {0, 1}
 Peer(e) == 1 - e
@@ -44,6 +57,8 @@ Range(q) == {q[i] : i \in DOMAIN q}
 Drop(q, n) == SubSeq(q, n + 1, Len(q))
 Take(q, n) == SubSeq(q, 1, n)
 
+FreshW == [on |-> FALSE, fin |-> FALSE, data |-> <<>>, cnt |-> 0, have |-> FALSE, res |-> ""]
+FreshR == [on |-> FALSE, fin |-> FALSE, k |-> 0, n |-> 0, data |-> <<>>, res |-> ""]
 Fresh == [reg |-> FALSE, est |-> FALSE, cw |-> FALSE, cl |-> FALSE, rcw |-> FALSE, rcl |-> FALSE, api |-> FALSE]
 
 \* w = StreamReceiveWindow, b = AcceptBacklog (the same configuration on both sides)
@@ -62,6 +77,16 @@ InitS(w, b) ==
    perr |-> [e \in E |-> FALSE],
    xclose |-> FALSE,
    unsent |-> [e \in E |-> {}],
+   cap |-> 0,
+   stuck |-> [e \in E |-> FALSE],
+   swr |-> [e \in E |-> [s \in Ids |-> FALSE]],
+   rbr |-> [e \in E |-> [s \in Ids |-> FALSE]],
+   wx |-> [e \in E |-> [s \in Ids |-> FALSE]],
+   rx |-> [e \in E |-> [s \in Ids |-> FALSE]],
+   wt |-> [e \in E |-> [s \in Ids |-> "off"]],
+   rt |-> [e \in E |-> [s \in Ids |-> "off"]],
+   wb |-> [e \in E |-> [s \in Ids |-> FreshW]],
+   rb |-> [e \in E |-> [s \in Ids |-> FreshR]],
    written |-> [e \in E |-> [s \in Ids |-> <<>>]],
    readOut |-> [e \in E |-> [s \in Ids |-> <<>>]],
    eof |-> [e \in E |-> [s \in Ids |-> FALSE]]]
@@ -80,10 +105,141 @@ EnqCloseWrite(S, e, s) == [S EXCEPT !.pcw[e] = @ \cup {s}]
 \* `case increment := <-m.enqueueWindowIncrement`
 EnqInc(S, e, s, c) == [S EXCEPT !.pinc[e][s] = (IF @ = -1 THEN 0 ELSE @) + c]
 
-\* Stream.close(true): closeWrite(false), close(closed), enqueue close, deregister
+(***************************************************************************)
+(* Stream.Write as the code runs it: entry checks, then per pass wait for   *)
+(* a readiness token (sendWindowReady), then for a write buffer, send       *)
+(* min(window, len) bytes, re-arm the token if window is left.  WRun        *)
+(* advances a call in progress as far as it can go without waiting.         *)
+(***************************************************************************)
+WriteErr(S, e, s) ==      \* the entry checks, in the order of the code
+  IF S.ss[e][s].cl THEN "closed" ELSE IF S.ss[e][s].cw THEN "wclosed"
+  ELSE IF ~Alive(S) THEN "muxclosed" ELSE IF S.ss[e][s].rcl THEN "rclosed" ELSE ""
+RoomFor(S, e) == S.cap = 0 \/ Len(S.wire[e]) < S.cap        \* a write buffer is available
+WFin(S, e, s, res) ==
+  [S EXCEPT !.wb[e][s].on = FALSE, !.wb[e][s].fin = TRUE, !.wb[e][s].have = FALSE, !.wb[e][s].res = res]
+
+RECURSIVE WRun(_, _, _)
+WRun(S, e, s) ==
+  LET b == S.wb[e][s]  X == S.ss[e][s] IN
+  IF ~b.on THEN S
+  ELSE IF b.data = <<>> THEN WFin(S, e, s, "")
+  ELSE IF X.cl THEN WFin(S, e, s, "closed")
+  ELSE IF X.cw THEN WFin(S, e, s, "wclosed")
+  ELSE IF ~Alive(S) THEN WFin(S, e, s, "muxclosed")
+  ELSE IF X.rcl THEN WFin(S, e, s, "rclosed")
+  ELSE IF ~b.have THEN                                   \* `case <-s.sendWindowReady`
+       (IF S.swr[e][s] THEN WRun([S EXCEPT !.swr[e][s] = FALSE, !.wb[e][s].have = TRUE], e, s) ELSE S)
+  ELSE IF ~RoomFor(S, e) THEN S                          \* `case writeBuffer = <-writeBufferAvailable`
+  ELSE LET w == Min(S.win[e][s], Len(b.data))            \* may be 0 if the token was spurious
+           left == S.win[e][s] - w
+           T == [S EXCEPT !.win[e][s] = left, !.swr[e][s] = (left > 0),
+                          !.written[e][s] = @ \o Take(b.data, w),
+                          !.wb[e][s].data = Drop(@, w), !.wb[e][s].cnt = @ + w, !.wb[e][s].have = FALSE]
+       IN WRun(Send(T, e, <<Msg("data", s, w, Take(b.data, w))>>), e, s)
+
+\* exit through `case <-writeDeadlineTimer.C` or through the expired check of `case deadline := <-s.writeDeadlineSet`:
+\* the token is handed back exactly when it was taken (haveNonZeroSendWindow)
+WTimeoutExit(S, e, s) ==
+  LET resignal == IF DeadlineBug = "wresignal" THEN TRUE
+                  ELSE IF DeadlineBug = "wlose" THEN FALSE ELSE S.wb[e][s].have
+      T == IF resignal THEN [S EXCEPT !.swr[e][s] = TRUE] ELSE S
+  IN WFin([T EXCEPT !.wx[e][s] = TRUE, !.wt[e][s] = "off"], e, s, "timeout")
+
+WriteBusy(S, e, s) == S.wb[e][s].on \/ S.wb[e][s].fin
+DoWStart(S, e, s, data) ==
+  LET B == [FreshW EXCEPT !.data = data]
+      Done(T, res) == [T EXCEPT !.wb[e][s] = [B EXCEPT !.fin = TRUE, !.res = res]]
+      err == WriteErr(S, e, s)
+  IN IF err # "" THEN Done(S, err)
+     ELSE IF S.wx[e][s] THEN Done(S, "timeout")
+     ELSE IF S.wt[e][s] = "fired" THEN Done([S EXCEPT !.wx[e][s] = TRUE, !.wt[e][s] = "off"], "timeout")
+     ELSE WRun([S EXCEPT !.wb[e][s] = [B EXCEPT !.on = TRUE]], e, s)
+DoWEnd(S, e, s) == [S EXCEPT !.wb[e][s] = FreshW]       \* the caller collects the result
+
+\* SetWriteDeadline: setStreamDeadline by the timer's holder (the caller itself, or the blocked Write through
+\* writeDeadlineSet).  mode: "clear" zero time, "past", "far" (future, never reached), "soon" (future, then reached)
+SetWDErr(S, e, s) == IF S.ss[e][s].cw THEN "wclosed" ELSE ""
+DoSetWD(S, e, s, mode) ==
+  IF S.ss[e][s].cw THEN S                                \* timer out of circulation: ErrWriteClosed
+  ELSE LET blocked == S.wb[e][s].on
+           T0 == [S EXCEPT !.wt[e][s] = "off"]           \* timer.Stop() and drain
+           T == IF mode = "clear" THEN [T0 EXCEPT !.wx[e][s] = FALSE]
+                ELSE IF mode = "past" THEN [T0 EXCEPT !.wx[e][s] = TRUE]
+                ELSE IF mode = "far" THEN [T0 EXCEPT !.wt[e][s] = "armed"]
+                ELSE [T0 EXCEPT !.wt[e][s] = IF blocked THEN "armed" ELSE "fired"]
+       IN IF ~blocked THEN T
+          ELSE IF T.wx[e][s] THEN WTimeoutExit(T, e, s)      \* `if s.writeDeadlineExpired` in the set branch
+          ELSE IF mode = "soon" THEN WTimeoutExit(T, e, s)   \* the timer branch, after Reset
+          ELSE T
+
+(***************************************************************************)
+(* Stream.Read                                                             *)
+(***************************************************************************)
+RFin(S, e, s, n, d, res) ==
+  [S EXCEPT !.rb[e][s].on = FALSE, !.rb[e][s].fin = TRUE, !.rb[e][s].n = n, !.rb[e][s].data = d, !.rb[e][s].res = res]
+RRun(S, e, s) ==
+  LET b == S.rb[e][s]  X == S.ss[e][s] IN
+  IF ~b.on THEN S
+  ELSE IF S.rbr[e][s] THEN                               \* `case <-s.receiveBufferReady`
+       LET c == Min(b.k, Len(S.rbuf[e][s]))
+           d == Take(S.rbuf[e][s], c)
+           T == [S EXCEPT !.rbr[e][s] = (Len(S.rbuf[e][s]) - c > 0),
+                          !.readOut[e][s] = @ \o d, !.rbuf[e][s] = Drop(@, c)]
+           U == IF c = 0 /\ ~ZeroIncBug THEN T ELSE EnqInc(T, e, s, c)
+       IN RFin(U, e, s, c, d, "")
+  ELSE IF X.rcw \/ X.rcl THEN RFin([S EXCEPT !.eof[e][s] = TRUE], e, s, 0, <<>>, "EOF")
+  ELSE IF X.cl THEN RFin(S, e, s, 0, <<>>, "closed")
+  ELSE IF ~Alive(S) THEN RFin(S, e, s, 0, <<>>, "muxclosed")
+  ELSE S
+RTimeoutExit(S, e, s) ==
+  LET T == IF DeadlineBug = "rresignal" THEN [S EXCEPT !.rbr[e][s] = TRUE] ELSE S IN
+  RFin([T EXCEPT !.rx[e][s] = TRUE, !.rt[e][s] = "off"], e, s, 0, <<>>, "timeout")
+ReadBusy(S, e, s) == S.rb[e][s].on \/ S.rb[e][s].fin
+DoRStart(S, e, s, k) ==
+  LET B == [FreshR EXCEPT !.k = k]
+      Done(T, res) == [T EXCEPT !.rb[e][s] = [B EXCEPT !.fin = TRUE, !.res = res]]
+  IN IF S.ss[e][s].cl THEN Done(S, "closed")
+     ELSE IF ~Alive(S) THEN Done(S, "muxclosed")
+     ELSE IF S.rx[e][s] THEN Done(S, "timeout")
+     ELSE IF S.rt[e][s] = "fired" THEN Done([S EXCEPT !.rx[e][s] = TRUE, !.rt[e][s] = "off"], "timeout")
+     ELSE RRun([S EXCEPT !.rb[e][s] = [B EXCEPT !.on = TRUE]], e, s)
+DoREnd(S, e, s) == [S EXCEPT !.rb[e][s] = FreshR]
+SetRDErr(S, e, s) == IF S.ss[e][s].cl THEN "closed" ELSE ""
+DoSetRD(S, e, s, mode) ==
+  IF S.ss[e][s].cl THEN S
+  ELSE LET blocked == S.rb[e][s].on
+           T0 == [S EXCEPT !.rt[e][s] = "off"]
+           T == IF mode = "clear" THEN [T0 EXCEPT !.rx[e][s] = FALSE]
+                ELSE IF mode = "past" THEN [T0 EXCEPT !.rx[e][s] = TRUE]
+                ELSE IF mode = "far" THEN [T0 EXCEPT !.rt[e][s] = "armed"]
+                ELSE [T0 EXCEPT !.rt[e][s] = IF blocked THEN "armed" ELSE "fired"]
+       IN IF ~blocked THEN T
+          ELSE IF T.rx[e][s] THEN RTimeoutExit(T, e, s)
+          ELSE IF mode = "soon" THEN RTimeoutExit(T, e, s)
+          ELSE T
+
+\* The deadline-bounded calls the driver issues for an ordinary script step:
+\* SetXDeadline(future); X; SetXDeadline(zero) -- the deadline passes if the call blocks.
+DoWriteBounded(S, e, s, data) ==
+  LET A == DoWStart(DoSetWD(S, e, s, "far"), e, s, data)
+      B == IF A.wb[e][s].on THEN WTimeoutExit(A, e, s) ELSE A
+  IN DoSetWD(B, e, s, "clear")
+DoReadBounded(S, e, s, k) ==
+  LET A == DoRStart(DoSetRD(S, e, s, "far"), e, s, k)
+      B == IF A.rb[e][s].on THEN RTimeoutExit(A, e, s) ELSE A
+  IN DoSetRD(B, e, s, "clear")
+
+\* blocked calls of one stream / of all streams proceed after an event
+Settle1(S, e, s) == RRun(WRun(S, e, s), e, s)
+RECURSIVE SettleSet(_, _)
+SettleSet(S, P) ==
+  IF P = {} THEN S ELSE LET p == CHOOSE q \in P : TRUE IN SettleSet(Settle1(S, p[1], p[2]), P \ {p})
+SettleAll(S) == SettleSet(S, {p \in E \X Ids : S.wb[p[1]][p[2]].on \/ S.rb[p[1]][p[2]].on})
+
+\* Stream.close(true): closeWrite(false), close(closed), enqueue close, deregister; blocked calls return
 LocalClose(S, e, s) ==
   IF S.ss[e][s].cl THEN S
-  ELSE EnqClose([S EXCEPT !.ss[e][s].cw = TRUE, !.ss[e][s].cl = TRUE, !.ss[e][s].reg = FALSE], e, s)
+  ELSE Settle1(EnqClose([S EXCEPT !.ss[e][s].cw = TRUE, !.ss[e][s].cl = TRUE, !.ss[e][s].reg = FALSE], e, s), e, s)
 
 \* OpenStream, first half: register, take a write buffer, encode the open message
 CanOpen(S, e) == S.nextOut[e] <= MaxId
@@ -114,33 +270,9 @@ DoAcceptOK(S, e) ==        \* write buffer case: close(established), encode acce
 DoAcceptStale(S, e) ==     \* remoteClosed case: errStaleInboundStream, deferred stream.Close()
   LET s == AcceptHead(S, e) IN LocalClose([S EXCEPT !.backlog[e] = Tail(@)], e, s)
 
-\* Stream.Write: the entry checks, in the order of the code
-WriteErr(S, e, s) ==
-  IF S.ss[e][s].cl THEN "closed" ELSE IF S.ss[e][s].cw THEN "wclosed"
-  ELSE IF ~Alive(S) THEN "muxclosed" ELSE IF S.ss[e][s].rcl THEN "rclosed" ELSE ""
-\* one pass of the write loop: a block of Min(window, len) bytes leaves in one data message
-WriteAmount(S, e, s, n) == Min(S.win[e][s], n)
-DoWrite(S, e, s, data) ==
-  IF data = <<>> THEN S
-  ELSE Send([S EXCEPT !.win[e][s] = @ - Len(data), !.written[e][s] = @ \o data], e,
-            <<Msg("data", s, Len(data), data)>>)
-
-\* Stream.Read
-ReadOutcome(S, e, s) ==
-  IF S.ss[e][s].cl THEN "closed"
-  ELSE IF ~Alive(S) THEN "muxclosed"
-  ELSE IF S.rbuf[e][s] # <<>> THEN "data"
-  ELSE IF S.ss[e][s].rcw \/ S.ss[e][s].rcl THEN "EOF"
-  ELSE "timeout"                                   \* would block until the read deadline
-ReadAmount(S, e, s, k) == Min(k, Len(S.rbuf[e][s]))
-DoReadData(S, e, s, c) ==
-  LET T == [S EXCEPT !.readOut[e][s] = @ \o Take(S.rbuf[e][s], c), !.rbuf[e][s] = Drop(@, c)] IN
-  IF c = 0 /\ ~ZeroIncBug THEN T ELSE EnqInc(T, e, s, c)
-DoReadEOF(S, e, s) == [S EXCEPT !.eof[e][s] = TRUE]
-
 \* Stream.CloseWrite / Stream.Close (both idempotent)
 DoCloseWrite(S, e, s) ==
-  IF S.ss[e][s].cw THEN S ELSE EnqCloseWrite([S EXCEPT !.ss[e][s].cw = TRUE], e, s)
+  IF S.ss[e][s].cw THEN S ELSE WRun(EnqCloseWrite([S EXCEPT !.ss[e][s].cw = TRUE], e, s), e, s)
 DoClose(S, e, s) == LocalClose(S, e, s)
 
 \* Multiplexer.Close
@@ -211,27 +343,35 @@ RecvVerdict(S, e, m) ==
         ELSE "")
   ELSE "received unknown message kind"
 
-\* effect of an accepted message on the receiver e
+\* effect of an accepted message on the receiver e (tokens as the reader goroutine signals them; sending a
+\* token into a channel that already holds one blocks the reader goroutine for good)
 RecvApply(S, e, m) ==
   LET s == m.s IN
   IF m.k = "open" THEN
        (IF Len(S.backlog[e]) = S.b                        \* backlog full: reject with a close message
         THEN EnqClose([S EXCEPT !.maxIn[e] = s], e, s)
-        ELSE [S EXCEPT !.maxIn[e] = s, !.ss[e][s].reg = TRUE, !.win[e][s] = m.a, !.backlog[e] = Append(@, s)])
-  ELSE IF m.k = "accept" THEN [S EXCEPT !.ss[e][s].est = TRUE, !.win[e][s] = m.a]
-  ELSE IF m.k = "data" THEN [S EXCEPT !.rbuf[e][s] = @ \o m.d]
-  ELSE IF m.k = "inc" THEN [S EXCEPT !.win[e][s] = @ + m.a]
+        ELSE [S EXCEPT !.maxIn[e] = s, !.ss[e][s].reg = TRUE, !.win[e][s] = m.a, !.swr[e][s] = (m.a > 0),
+                       !.backlog[e] = Append(@, s)])
+  ELSE IF m.k = "accept" THEN [S EXCEPT !.ss[e][s].est = TRUE, !.win[e][s] = m.a, !.swr[e][s] = (m.a > 0)]
+  ELSE IF m.k = "data" THEN
+       (IF S.rbuf[e][s] # <<>> THEN [S EXCEPT !.rbuf[e][s] = @ \o m.d]
+        ELSE IF S.rbr[e][s] THEN [S EXCEPT !.rbuf[e][s] = @ \o m.d, !.stuck[e] = TRUE]
+        ELSE [S EXCEPT !.rbuf[e][s] = @ \o m.d, !.rbr[e][s] = TRUE])
+  ELSE IF m.k = "inc" THEN
+       (IF S.win[e][s] # 0 THEN [S EXCEPT !.win[e][s] = @ + m.a]
+        ELSE IF S.swr[e][s] THEN [S EXCEPT !.win[e][s] = m.a, !.stuck[e] = TRUE]
+        ELSE [S EXCEPT !.win[e][s] = m.a, !.swr[e][s] = TRUE])
   ELSE IF m.k = "cw" THEN [S EXCEPT !.ss[e][s].rcw = TRUE]
   ELSE [S EXCEPT !.ss[e][s].rcl = TRUE]
 
-\* the receiver e processes message m (already removed from the wire)
+\* the receiver e processes message m (already removed from the wire); blocked calls then proceed
 RecvMsg(S, e, m) ==
   LET v == RecvVerdict(S, e, m) IN
-  IF v = "" THEN RecvApply(S, e, m)
-  ELSE IF v = "discard" THEN (IF m.k = "open" THEN S ELSE S)
-  ELSE [S EXCEPT !.perr[e] = TRUE]
+  IF v = "" THEN Settle1(RecvApply(S, e, m), e, m.s)
+  ELSE IF v = "discard" THEN S
+  ELSE SettleAll([S EXCEPT !.perr[e] = TRUE])
 
-CanRecv(S, e) == S.wire[Peer(e)] # <<>>
+CanRecv(S, e) == S.wire[Peer(e)] # <<>> /\ ~S.stuck[e]
 DoRecv(S, e) == RecvMsg([S EXCEPT !.wire[Peer(e)] = Tail(@)], e, Head(S.wire[Peer(e)]))
 
 (***************************************************************************)
@@ -271,6 +411,14 @@ C23_NoCrossTalk(S) == \A e \in E, s \in Ids : C23_NoCrossTalkAt(S, e, s)
 C24_NoViolation(S) == ~S.perr[0] /\ ~S.perr[1]
 \* flow control: the receive buffer never exceeds the advertised window
 WindowRespected(S) == \A e \in E, s \in Ids : Len(S.rbuf[e][s]) <= S.w
+\* readiness tokens: present exactly when there is window / buffered data (unless a writer holds the token),
+\* and no reader goroutine is stuck on a full token channel
+TokensOK(S) ==
+  /\ ~S.stuck[0] /\ ~S.stuck[1]
+  /\ \A e \in E, s \in Ids :
+       /\ S.swr[e][s] => S.win[e][s] > 0
+       /\ S.rbr[e][s] <=> S.rbuf[e][s] # <<>>
+       /\ (S.win[e][s] > 0 /\ ~S.wb[e][s].have) => S.swr[e][s]
 \* everything on the wire obeys the sender rules
 WireConforms(S) == \A e \in E : \A i \in DOMAIN S.wire[e] : SenderRule(S, e, S.wire[e][i])
 ====
